@@ -89,6 +89,13 @@ def check(rep: Report, tier: str, seed: int):
                 raise tlc.MachineryError(f"reachability probe {r} not reachable: invariants may be vacuous")
         rep.extra["reachability_probes"] = REACH
         rep.exhaustive = True
+        # the unbounded argument: TLAPS proves  Spec => []IndInv  and  IndInv => WindowPair  for ALL parameters, times and
+        # histories of the model built on the same Consume operator (specs/proofs/TokenBucketProof.tla); ~6 s
+        from . import tlaps
+        pr = tlaps.prove("TokenBucketProof", wd)
+        rep.extra["tlaps"] = pr
+        if not pr["proved"]:
+            raise tlc.MachineryError(f"TLAPS proof of the window bound no longer checks: {pr}")
 
         # ---- leg 2: spec -> code, every terminal MC behaviour replayed on the real limiter -------------
         cap = 4000 if tier == "quick" else 10**9
